@@ -38,6 +38,10 @@ type Fn struct {
 	// ExpandPreds makes FormulaOf replace calls of one-line predicate helpers by their bodies.
 	ExpandPreds bool
 	expandDepth int
+	// Scope is the (normalised) body of the enclosing declared function: the region in which
+	// the definitions of a local are counted.  Inlined is the number of callee bodies spliced in.
+	Scope   ast.Node
+	Inlined int
 }
 
 // Vertex kinds.
@@ -89,6 +93,8 @@ func (p *Program) Fn(src *FuncSrc) *Fn {
 		}
 	}
 	f.fillParams()
+	f.normalise()
+	f.Scope = f.Body
 	f.build()
 	p.fnCache[src.Decl.Body] = f
 	return f
@@ -99,7 +105,7 @@ func (f *Fn) Lit(lit *ast.FuncLit, label string) *Fn {
 	if g := f.P.fnCache[lit.Body]; g != nil {
 		return g
 	}
-	g := &Fn{P: f.P, Pkg: f.Pkg, Info: f.Info, Src: f.Src, Name: f.Name + "$" + label, Body: lit.Body, Type: lit.Type, Recv: f.Recv, Outer: f}
+	g := &Fn{P: f.P, Pkg: f.Pkg, Info: f.Info, Src: f.Src, Name: f.Name + "$" + label, Body: lit.Body, Type: lit.Type, Recv: f.Recv, Outer: f, Subst: f.Subst, Scope: f.Scope}
 	g.fillParams()
 	g.build()
 	f.P.fnCache[lit.Body] = g
@@ -114,7 +120,7 @@ func (f *Fn) Region(stmts []ast.Stmt, label string) *Fn {
 		body.Lbrace = stmts[0].Pos()
 		body.Rbrace = stmts[len(stmts)-1].End()
 	}
-	g := &Fn{P: f.P, Pkg: f.Pkg, Info: f.Info, Src: f.Src, Name: f.Name + "#" + label, Body: body, Type: f.Type, Recv: f.Recv, Params: f.Params, Result: f.Result, Outer: f.Outer}
+	g := &Fn{P: f.P, Pkg: f.Pkg, Info: f.Info, Src: f.Src, Name: f.Name + "#" + label, Body: body, Type: f.Type, Recv: f.Recv, Params: f.Params, Result: f.Result, Outer: f.Outer, Subst: f.Subst, Scope: f.Scope}
 	g.build()
 	return g
 }
